@@ -938,6 +938,24 @@ fn units_c03(th: bool) -> Vec<Unit> {
             }
         }
     }
+    v.extend(units_deep(th));
+    v
+}
+/// a deeper pre-emption bound on MANY instances under the cheapest configuration (no store operations, so few scheduling points):
+/// a purge / prune decision taken on a bound read two critical sections earlier needs three context switches of two workers AND an
+/// instance whose first sub-problem improves the incumbent past the bound of the second one while its own cut-set still holds the
+/// optimum (seeded change C03r4: TM-B4#1036 is the first such instance at stride 37)
+fn units_deep(th: bool) -> Vec<Unit> {
+    let base = Variant::BASE;
+    let mut v = vec![];
+    let plain = Cfg { dd: DdKind::Lel, cache: false, nodup: false, width: 1 };
+    let caching = Cfg { dd: DdKind::Fc, cache: true, nodup: true, width: 1 };
+    for (fam, var, m, stride) in [("TM-B4", base, if th { 48 } else { 24 }, 37u64), ("TM-B4", Variant { flat: true, ..base }, 8, 41), ("TM-N0.1", base, 6, 7), ("TM-N1.1", Variant { rub: Rub::Exact, ..base }, 6, 11), ("KP-3", base, 6, 173), ("SP-4", Variant { flat: true, la: false, ..base }, 6, 211)] {
+        for (k, (f, idx, vr)) in interesting(fam, var, m, stride).into_iter().enumerate() {
+            v.push(Unit { fam: f.clone(), idx, var: vr, cfg: plain, construct: 2, run: 2, cut: CutMode::None, bound: if th { 4 } else { 3 }, primal: false, all: false });
+            if k < if th { 12 } else { 1 } { v.push(Unit { fam: f.clone(), idx, var: vr, cfg: caching, construct: 2, run: 2, cut: CutMode::None, bound: 3, primal: false, all: false }); }
+        }
+    }
     v
 }
 fn units_c04(th: bool) -> Vec<Unit> {
@@ -1010,7 +1028,7 @@ pub fn check(prop: &str, tier: &str) -> i32 {
     let (a1, s1, c1) = crate::bnb::run_plans(&rep, &[prop], &plans, dl);
     cov["single_worker_part"] = crate::checks::par1_cov(&a1, s1, c1);
     // ALL interleavings (explicit-state search) on the smallest non-trivial instances
-    let (acov, aok, aexec, _) = all_part(&rep, prop, CutMode::None, false, false, if prop == "C04" { 10.0 } else { 14.0 }, 600.0);
+    let (acov, aok, aexec, _) = all_part(&rep, prop, CutMode::None, false, false, 10.0, 600.0);
     cov["all_interleavings_part"] = acov;
     let mut aok2 = true; let mut aexec2 = 0;
     if prop == "C04" { let (acov2, ok2, ex2, _) = all_part(&rep, prop, CutMode::EveryPoll, false, false, 6.0, 400.0); cov["all_interleavings_with_cutoff_part"] = acov2; aok2 = ok2; aexec2 = ex2; }
